@@ -482,6 +482,14 @@ func genBuf(r *Rand, n int, tier string, w *bufio.Writer) {
 		}
 		evs := genDAG(r, k, r.Chance(1, 2))
 		num, size := pickLimits(r, evs)
+		if r.Chance(1, 25) { // huge events with an unlimited buffer: nothing may be evicted silently
+			for i := range evs {
+				if r.Chance(1, 2) {
+					evs[i].size = int(r.Pick(1<<30, 1<<30+1, 1<<31, 3<<30))
+				}
+			}
+			num, size = math.MaxUint64, math.MaxUint64
+		}
 		header(fmt.Sprintf("random k=%d", k))
 		fmt.Fprintf(w, "lim %s %s\n", limStr(num), limStr(size))
 		if r.Chance(3, 4) {
